@@ -80,6 +80,7 @@ type vlInit struct {
 	Extra    string     `json:"extra"` // free funds in units of the bond denom
 	Grants   bool       `json:"grants"`
 	Code     bool       `json:"code"`
+	Plain    bool       `json:"plain"` // the account starts as a plain funded account (no vesting schedule yet)
 }
 
 type vlCfg struct {
@@ -990,6 +991,63 @@ func (x *vlExec) step(st vlStep) {
 			bz, err = x.cosmosTx(x.a1, 1_000_000, x.cosmosFee(1_000_000), nil,
 				vestingtypes.NewMsgConvertIntoVestingAccount(x.a1.Addr, x.vx.Addr, start, lk, vs, true, st.Ev == "convert_into_stake", x.val(x.curV)))
 		}
+	case "in_send_pair", "in_multisend", "in_eth", "in_convert_coin", "in_convert_erc20":
+		// third parties pay INTO the account: bank send of the ERC20-registered coin, multi-send, EVM value,
+		// coin -> ERC20 and ERC20 -> coin conversion with the account as receiver
+		d := vlLiq
+		if st.Ev == "in_eth" {
+			d = vlBond
+		}
+		if st.Ev == "in_multisend" {
+			_, _ = d, 0
+			if dd, _ := x.debitAmount(a, new(big.Int)); dd == vlBond {
+				d = vlBond
+			}
+		}
+		var units any = "1"
+		if am, ok := a["amt"].(map[string]any); ok {
+			for _, dd := range vlDenoms {
+				if v, ok := am[dd]; ok && vlBig(v).Sign() > 0 {
+					units = v
+				}
+			}
+		}
+		amt := x.resolve(how, x.unit, x.unit, units)
+		args["amt"] = vlAmtMap(d, amt)
+		c := sdk.NewCoin(d, vlInt(amt))
+		have := x.n.App.BankKeeper.GetBalance(x.n.Ctx(), x.a1.Addr, d).Amount.BigInt()
+		if st.Ev != "in_eth" && have.Cmp(amt) < 0 {
+			err = fmt.Errorf("the sender does not hold the coin")
+			break
+		}
+		switch st.Ev {
+		case "in_send_pair":
+			bz, err = x.cosmosTx(x.a1, 9_000_000, x.cosmosFee(9_000_000), nil, banktypes.NewMsgSend(x.a1.Addr, x.vx.Addr, sdk.NewCoins(c)))
+		case "in_multisend":
+			bz, err = x.cosmosTx(x.a1, 400000, x.cosmosFee(400000), nil, banktypes.NewMsgMultiSend(
+				[]banktypes.Input{banktypes.NewInput(x.a1.Addr, sdk.NewCoins(c))}, []banktypes.Output{banktypes.NewOutput(x.vx.Addr, sdk.NewCoins(c))}))
+		case "in_eth":
+			eth = true
+			to := ethAddr(x.vx)
+			bz, err = x.ethTx(x.a2, &to, amt, 100000, gp, nil)
+		case "in_convert_coin":
+			bz, err = x.cosmosTx(x.a1, 3_000_000, x.cosmosFee(3_000_000), nil, erc20types.NewMsgConvertCoin(c, ethAddr(x.vx), x.a1.Addr))
+		case "in_convert_erc20":
+			id := x.n.App.Erc20Keeper.GetTokenPairID(x.n.Ctx(), d)
+			pair, found := x.n.App.Erc20Keeper.GetTokenPair(x.n.Ctx(), id)
+			if !found {
+				err = fmt.Errorf("no token pair")
+				break
+			}
+			pb, pe := x.cosmosTx(x.a1, 3_000_000, x.cosmosFee(3_000_000), nil, erc20types.NewMsgConvertCoin(c, ethAddr(x.a1), x.a1.Addr))
+			if !x.prep("in-convert-prep", pb, pe, false) {
+				err = fmt.Errorf("prep failed")
+				break
+			}
+			pre = x.project()
+			bz, err = x.cosmosTx(x.a1, 3_000_000, x.cosmosFee(3_000_000), nil,
+				erc20types.NewMsgConvertERC20(vlInt(amt), x.vx.Addr, pair.GetERC20Contract(), ethAddr(x.a1)))
+		}
 	case "fund_extra":
 		amt := x.resolve(how, x.unit, x.unit, func() any {
 			if am, ok := a["amt"].(map[string]any); ok {
@@ -1180,6 +1238,12 @@ func vlRunScenario(tw *TraceWriter, scn int, src string, sc vlScript, stats map[
 	lk, vs := x.msgSchedules(cfg.Init.Lockup, cfg.Init.Vesting)
 	free := new(big.Int).Add(x.units(cfg.Init.Extra), mustBig(cfg.Dust))
 	msgs := []sdk.Msg{vestingtypes.NewMsgCreateClawbackVestingAccount(x.a1.Addr, x.vx.Addr, start, lk, vs, false)}
+	if cfg.Init.Plain {
+		msgs = nil // a plain account: funded, no schedule (a later convert_into turns it into a vesting account)
+		if free.Sign() == 0 {
+			free = new(big.Int).Set(x.unit)
+		}
+	}
 	if free.Sign() > 0 {
 		msgs = append(msgs, banktypes.NewMsgSend(x.a1.Addr, x.vx.Addr, sdk.NewCoins(sdk.NewCoin(vlBond, vlInt(free)))))
 	}
@@ -1243,8 +1307,10 @@ func vlRunScenario(tw *TraceWriter, scn int, src string, sc vlScript, stats map[
 func vlRandomScript(r *rand.Rand, seed int64) vlScript {
 	pick := func(xs ...string) string { return xs[r.Intn(len(xs))] }
 	lens := []int64{1, 20, 20, 40, 60}
-	flavor := r.Intn(7) // 0: liquidation-prone (vested early, locked long); 1: conversion-prone (same shape); 2: crossing denominations
-	liq := r.Intn(2) == 0 || flavor == 2
+	// 0: liquidation-prone (vested early, locked long); 1: conversion-prone (same shape); 2: crossing denominations;
+	// 3: a plain account with delegations and a slashed unbonding entry is converted into a vesting account
+	flavor := r.Intn(8)
+	liq := (r.Intn(2) == 0 || flavor == 2) && flavor != 3
 	mkAmt := func() map[string]string {
 		m := map[string]string{vlBond: fmt.Sprint(1 + r.Intn(3)), vlLiq: "0"}
 		if liq {
@@ -1348,8 +1414,41 @@ func vlRandomScript(r *rand.Rand, seed int64) vlScript {
 		}
 		nsteps = 4 + r.Intn(6)
 	}
+	if flavor == 3 {
+		sc.Cfg.Init.Plain, sc.Cfg.Init.Code = true, false
+		sc.Cfg.Init.Lockup, sc.Cfg.Init.Vesting = []vlPeriod{}, []vlPeriod{}
+		sc.Cfg.Init.Extra = pick("3", "4")
+		two := map[string]any{vlBond: "2", vlLiq: "0"}
+		g := map[string]any{"startOff": int64(-5),
+			"lockup":  []any{map[string]any{"len": int64(60 + 60*r.Intn(2)), "amt": two}},
+			"vesting": []any{map[string]any{"len": int64(1), "amt": two}}}
+		sc.Steps = append(sc.Steps,
+			vlStep{Ev: pick("delegate", "pc_delegate", "delegate"), Args: M{"how": pick("half", "max", "unit")}},
+			vlStep{Ev: "undelegate", Args: M{"how": pick("half", "all")}},
+			vlStep{Ev: "slash", Args: M{}},
+			vlStep{Ev: "tick", Args: M{"dt": int64(1 + r.Intn(3))}},
+			vlStep{Ev: pick("convert_into", "convert_into", "convert_into_stake"), Args: M{"grant": g}},
+			vlStep{Ev: pick("send", "dao_fund", "eth_value", "multisend"), Args: M{"how": pick("sp", "sp", "all")}})
+		nsteps = 4 + r.Intn(6)
+	}
+	incoming := []string{"in_multisend", "in_eth"}
+	if liq {
+		incoming = append(incoming, "in_send_pair", "in_send_pair", "in_convert_coin", "in_convert_erc20", "in_multisend")
+		if r.Intn(3) == 0 {
+			// early on somebody sends the account a few units of the ERC20-registered coin
+			sc.Steps = append(sc.Steps, vlStep{Ev: "in_send_pair", Args: M{"how": pick("one", "unit")}})
+		}
+	}
 	for i := 0; i < nsteps; i++ {
 		var st vlStep
+		if r.Intn(12) == 0 {
+			a := M{"how": pick("one", "unit")}
+			if r.Intn(2) == 0 {
+				a["denom"] = vlBond
+			}
+			sc.Steps = append(sc.Steps, vlStep{Ev: incoming[r.Intn(len(incoming))], Args: a})
+			continue
+		}
 		switch k := r.Intn(20); {
 		case k < 8:
 			ev := debit[r.Intn(len(debit))]
